@@ -290,7 +290,7 @@ def _lname(gids) -> str:
 
 
 def load_cases(tier: str, interp: bool) -> list[dict]:
-    sizes = [5, 7, 9] + ([11, 13] if tier == "thorough" else [])
+    sizes = [5, 7, 9] + ([11, 13, 15] if tier == "thorough" else [])
     out = []
     for gids in ORDERED_LISTS:
         for Ns in sizes:
@@ -303,6 +303,14 @@ def load_cases(tier: str, interp: bool) -> list[dict]:
                                 "id": f"list={_lname(gids)},stored={Ns},target={Nt},sb={sb},rb={rb},grid={gcls}",
                                 "plist": gids, "Ns": Ns, "Nt": Nt, "sb": sb, "rb": rb, "grid": gcls,
                             })
+    if interp and tier == "quick":
+        # target grids with more than 64 and with a non-power-of-two number of momentum points ((N-1)^2 = 100, 144): anything that
+        # treats the points of the new grid in blocks or batches has a remainder here (thorough has all stored sizes up to 13)
+        for gids in ([0], [0, 1]):
+            for Ns, Nt in ((13, 11), (15, 13)):
+                for sb, rb in (("Chebyshev", "Cardinal"), ("Cardinal", "Chebyshev")):
+                    out.append({"id": f"list={_lname(gids)},stored={Ns},target={Nt},sb={sb},rb={rb},grid=Grid3Scales",
+                                "plist": gids, "Ns": Ns, "Nt": Nt, "sb": sb, "rb": rb, "grid": "Grid3Scales"})
     return out
 
 
